@@ -43,6 +43,8 @@ def jobs(tier):
         out.append({"ob": "O2d", "cfg": {"geo": 1, "n": 3, "perm": [0, 1, 2], "opt": 15, "fault": fault}})
     for opt in range(32):
         out.append({"ob": "O2c", "cfg": {"geo": 2, "n": 3, "opt": opt}})
+    for opt in (1, 3, 31):
+        out.append({"ob": "O2c", "cfg": {"geo": 2, "n": 3, "opt": opt, "cs_full": True}})
     for fault in ("missing-mapping", "unknown-sheet", "pts-2cols", "map-shape", "sign-shape", "name-absent-map", "cstr-unknown-sensor",
                   "cstr-unused", "bglines-3cols"):
         out.append({"ob": "O2d", "cfg": {"geo": 2, "n": 3, "opt": 31, "fault": fault}})
@@ -99,7 +101,8 @@ def build_geo2(cfg):
     fd = {"sensors names": pd.DataFrame([names]), "points coordinates": symdf("pc", pts, "xyz"), "mapping": mapping}
     opt = cfg["opt"]
     if opt & 1:
-        fd["constraints"] = symdf("cs", ["c0"], ["s2", "s0"])
+        # partial table (a column is missing) or complete table in sheet order != sensor order
+        fd["constraints"] = symdf("cs", ["c0"], ["s2", "s0", "s1"][:n] if cfg.get("cs_full") else ["s2", "s0"])
     else:
         fd["mapping"] = mapping.replace("c0", 0.0)
     if opt & 2:
@@ -304,6 +307,20 @@ def replay_geo(cfg):
         for key, got_ in (("sensors lines", res[3]), ("BG lines", res[5]), ("BG surfaces", res[6])):
             if key in fd0 and not np.allclose(np.asarray(got_, dtype=float), fd0[key].values - 1):
                 return True, f"{site}: '{key}' not shifted to zero-based", f"{site}:index-shift"
+    else:
+        cstr = res[3]
+        if "constraints" in fd0:
+            c0 = fd0["constraints"]
+            if cstr is None or list(cstr.columns) != list(names):
+                return True, (f"{site}: constraint table columns {None if cstr is None else list(cstr.columns)} are not in sensor order "
+                              f"{list(names)} (dfphi_map_func multiplies positionally)"), f"{site}:constraints-order"
+            for r in c0.index:
+                for nm in names:
+                    want = float(c0.loc[r, nm]) if nm in c0.columns else 0.0
+                    if not np.isclose(float(cstr.loc[r, nm]), want):
+                        return True, f"{site}: constraint coefficient ({r}, {nm}) changed", f"{site}:constraints-values"
+        elif cstr is not None:
+            return True, f"{site}: omitted 'constraints' returned as a table", f"{site}:constraints-invented"
     return False, "as specified", None
 
 
